@@ -1376,6 +1376,19 @@ class Desugar(ast.NodeTransformer):
         while bi + 1 < len(body):
             b0, b1 = body[bi], body[bi + 1]
             done = False
+            # f = X if C else Y ; S(f(args))   (X, Y plain callables, f read once - by that call)   ->   if C: f = X else: f = Y ; S(f(args))   -> D20
+            if isinstance(b0, ast.Assign) and len(b0.targets) == 1 and isinstance(b0.targets[0], ast.Name) and isinstance(b0.value, ast.IfExp) \
+                    and all(isinstance(a_, (ast.Name, ast.Attribute, ast.Lambda)) or (isinstance(a_, ast.Call) and _pure_cell(a_)) for a_ in (b0.value.body, b0.value.orelse)) \
+                    and getattr(self, 'loads', None) is not None and self.loads.get(b0.targets[0].id, 0) == 1 and self.stores.get(b0.targets[0].id, 0) == 1 \
+                    and isinstance(b1, (ast.Return, ast.Assign, ast.Expr)) and any(
+                        isinstance(c_, ast.Call) and isinstance(c_.func, ast.Name) and c_.func.id == b0.targets[0].id for c_ in ast.walk(b1)):
+                vn_ = b0.targets[0].id
+                b0 = ast.copy_location(ast.If(test=b0.value.test,
+                                              body=[ast.Assign(targets=[ast.Name(id=vn_, ctx=ast.Store())], value=b0.value.body)],
+                                              orelse=[ast.Assign(targets=[ast.Name(id=vn_, ctx=ast.Store())], value=b0.value.orelse)]), b0)
+                ast.fix_missing_locations(b0)
+                body[bi] = b0
+                self.stores[vn_] = 2
             if isinstance(b0, ast.If) and isinstance(b1, (ast.Return, ast.Assign, ast.Expr)) and getattr(self, 'loads', None) is not None:
                 calls = [c for c in ast.walk(b1) if isinstance(c, ast.Call) and isinstance(c.func, ast.Name) and self.loads.get(c.func.id, 0) == 1]
                 for c in calls:
